@@ -266,9 +266,13 @@ theorem inv1_step (s : St) (a : Act) (s' : St) (hi : Inv1 s) (h : step s a = som
     split at h
     · split at h
       · split at h
+        · cases h; exact ⟨h1, h2, h3, h4, sg_mono h5 rfl (fun _ hf => hf) rfl (fun x hx => ⟨x, hx, rfl⟩)⟩
+        · split at h
+          · cases h
+          · cases h; exact ⟨h1, h2, h3, h4, sg_mono h5 rfl (fun _ hf => hf) rfl (fun x hx => ⟨x, hx, rfl⟩)⟩
+      · split at h
         · cases h
         · cases h; exact ⟨h1, h2, h3, h4, sg_mono h5 rfl (fun _ hf => hf) rfl (fun x hx => ⟨x, hx, rfl⟩)⟩
-      · cases h; exact ⟨h1, h2, h3, h4, sg_mono h5 rfl (fun _ hf => hf) rfl (fun x hx => ⟨x, hx, rfl⟩)⟩
     · cases h
   | cancelEnd f =>
     simp only [step] at h
